@@ -112,6 +112,12 @@ struct C18 {
     bool boot = false; for (auto &t : s.tx) if (t.dlc == 1 && t.d[0] == 0 && t.id >= 0x700 && t.id <= 0x7FF) { CHECK(c, t.id == 0x700u + expect, "stored-config-active-after-reset", "boot-up frame after reset communication has identifier %03X, expected %03X (stored LSS node id %u)", t.id, 0x700u + expect, expect); boot = true; }
     CHECK(c, boot, "stored-config-active-after-reset", "no boot-up frame after reset communication");
     if (s.lss_have && s.lss_baud) CHECK(c, s.node->Baudrate == s.lss_baud, "stored-config-active-after-reset", "bit rate after reset communication is %u, the stored configuration says %u", s.node->Baudrate, s.lss_baud);
+    // the active node id is the one every service uses: the SDO server answers on 580h + id to a request on 600h + id
+    if (expect >= 1 && expect <= 127) {
+      s.clear_tx(); s.rx(Frame::mk(0x600u + expect, 8, {0x40, 0x18, 0x10, 0x01, 0, 0, 0, 0}));
+      CHECK(c, s.tx.size() == 1 && s.tx[0].id == 0x580u + expect && s.tx[0].d[0] == 0x43, "stored-config-active-after-reset", "after reset communication (active node id %u) an SDO read of 1018h:01 on %03X was answered with %zu frame(s)%s%s, expected one on %03X",
+            expect, 0x600u + expect, s.tx.size(), s.tx.empty() ? "" : ", first ", s.tx.empty() ? "" : s.tx[0].str().c_str(), 0x580u + expect);
+    }
     nodeid = expect; nmt = 2; for (auto &x : m) x.reset_lss();
     if (stored_ok) store_reset = true;
     s.clear_tx(); s.clear_ev();
